@@ -39,6 +39,42 @@ class KNp:
             n = Dim(int(n))
         return identity(n)
 
+    def einsum(self, spec, *ops, **k):
+        """two-operand matrix products written as einsum ('ik,jk->ij' = A B^T, 'ij,jk->ik' = A B, ...)"""
+        spec = spec.replace(" ", "")
+        try:
+            ins, out = spec.split("->")
+            xs, ys = ins.split(",")
+        except ValueError:
+            raise Concretization("np.einsum(%r) in the W domain" % spec)
+        if len(ops) != 2 or not all(isinstance(o, W) for o in ops) or len(xs) != 2 or len(ys) != 2 or len(out) != 2 \
+                or len(set(xs)) != 2 or len(set(ys)) != 2:
+            raise Concretization("np.einsum(%r) in the W domain" % spec)
+        common = [c_ for c_ in xs if c_ in ys and c_ not in out]
+        if len(common) != 1:
+            raise Concretization("np.einsum(%r) in the W domain" % spec)
+        c_ = common[0]
+        A, B = ops
+        A = A if xs[1] == c_ else A.T
+        ra = xs[0] if xs[1] == c_ else xs[1]
+        B = B if ys[0] == c_ else B.T
+        cb = ys[1] if ys[0] == c_ else ys[0]
+        prod = A @ B
+        if (ra, cb) == (out[0], out[1]):
+            return prod
+        if (cb, ra) == (out[0], out[1]):
+            return prod.T
+        raise Concretization("np.einsum(%r) in the W domain" % spec)
+
+    def dot(self, a, b, *args, **k):
+        return a @ b
+
+    def matmul(self, a, b, *args, **k):
+        return a @ b
+
+    def transpose(self, a, *args, **k):
+        return a.T
+
     def cumsum(self, seq, *a, **k):
         """running sums of a short list of (symbolic) dimensions, e.g. block boundaries"""
         seq = list(seq)
